@@ -14,6 +14,10 @@ class RatFuncSegment:
     """
     value_type: DataType
 
+    #: the type of the values which the segment is applied to (in
+    #: contrast to `value_type`, which is the type of the results)
+    domain_type: DataType
+
     numerator_coeffs: List[Union[int, float]]
     denominator_coeffs: List[Union[int, float]]
 
@@ -37,7 +41,8 @@ class RatFuncSegment:
             denominator_coeffs=denominator_coeffs,
             lower_limit=lower_limit,
             upper_limit=upper_limit,
-            value_type=scale.range_type)
+            value_type=scale.range_type,
+            domain_type=scale.domain_type)
 
     def convert(self, value: AtomicOdxType) -> Union[float, int]:
         if not isinstance(value, (int, float)):
@@ -69,8 +74,10 @@ class RatFuncSegment:
 
     def applies(self, value: AtomicOdxType) -> bool:
         """Returns True iff the segment is applicable to a given internal value"""
-        # Do type checks
-        expected_type = self.value_type.python_type
+        # Do type checks. Note that the limits and the values which the
+        # segment applies to are specified using the domain type of
+        # the scale, not its range type.
+        expected_type = self.domain_type.python_type
         if issubclass(expected_type, float):
             if not isinstance(value, (int, float)):
                 return False
